@@ -173,6 +173,11 @@ def check(ctx: Ctx) -> list[RuleResult]:
         hit = False
         cfg = ctx.plain_cfg(f)
         closure_names = [g.name for g in f.nested.values() if any(c + "(" in norm(g.node) for c in callees)]
+        # ... or a private method of the same class (part of the handler that was given a name)
+        for cs in ctx.cg.calls_in(f):
+            for g in cs.callees:
+                if g is not f and g.cls is not None and f.cls is not None and g.cls in f.cls.mro and g.name != f.name and g.name.startswith("_") and any(c + "(" in norm(g.node) for c in callees) and g.name not in closure_names:
+                    closure_names.append(g.name)
         targets = [x for x in cfg.nodes if x.ast is not None and x.kind in ("stmt", "test") and (any(c + "(" in norm(x.ast) for c in callees) or any(g + "(" in norm(x.ast) for g in closure_names))]
         tests = [t for t in cfg.nodes if t.kind == "test" and f"Code.{code}" in norm(t.ast)]
         for t in tests:
@@ -296,7 +301,15 @@ def check(ctx: Ctx) -> list[RuleResult]:
     gst = repo.func("ramses_rf.gateway.Gateway.start")
     cfgs = ctx.plain_cfg(gst)
     FLAG = "self.config.disable_discovery"
-    calls = [x for x in cfgs.nodes if x.ast is not None and x.kind == "stmt" and any(isinstance(c, ast.Call) and norm(c.func) == "initiate_discovery" for c in ast.walk(x.ast))]
+    # the call that starts the discovery pollers: whatever closure/function of this module reaches _start_discovery_poller()
+    from .common import module_scope, pool
+
+    starters = {g.name for g in module_scope(ctx, gst) if g is not gst and any(isinstance(n, ast.Call) and isinstance(n.func, ast.Attribute) and n.func.attr == "_start_discovery_poller" for _g, n in pool([g]))}
+
+    def _is_disc_call(c: ast.AST) -> bool:
+        return isinstance(c, ast.Call) and ((isinstance(c.func, ast.Name) and c.func.id in starters) or (isinstance(c.func, ast.Attribute) and c.func.attr in starters))
+
+    calls = [x for x in cfgs.nodes if x.ast is not None and x.kind == "stmt" and not isinstance(x.ast, (ast.FunctionDef, ast.AsyncFunctionDef)) and any(_is_disc_call(c) for c in ast.walk(x.ast))]
     tests = [t for t in cfgs.nodes if t.kind == "test" and FLAG in norm(t.ast) and any(cfgs.edge_dominates(t, "true", c) for c in calls)]
     writes = []
     for x in cfgs.nodes:
@@ -323,7 +336,7 @@ def check(ctx: Ctx) -> list[RuleResult]:
     # point misses every system/device created while start() was waiting (self.systems builds a new list on every read)
     for cnode in calls:
         for c in ast.walk(cnode.ast):
-            if not (isinstance(c, ast.Call) and norm(c.func) == "initiate_discovery"):
+            if not _is_disc_call(c):
                 continue
             for arg in list(c.args) + [k.value for k in c.keywords]:
                 r6.instances += 1
